@@ -62,7 +62,7 @@ func runC07(o *cli.Opts, run *evid.Run) {
 		systems[i] = &c07System{sp.mode, sp.d, sp.b, ps, sp.tag}
 	})
 	run.Stage("setup")
-	nValid := o.Pick(5, 24)
+	nValid := o.Pick(8, 24)
 	var proved []c07Proved
 	var mu sync.Mutex
 	type job struct {
@@ -92,13 +92,13 @@ func runC07(o *cli.Opts, run *evid.Run) {
 		var desc map[string]any
 		var perturbed *big.Int
 		if s.mode == "insertion" {
-			c := sysutil.ValidIns(r, s.d, s.b)
+			c := sysutil.ValidInsK(r, s.d, s.b, j.k)
 			p := sysutil.InsParams(c)
 			hash, desc = p.InputHash, c.Describe()
 			perturbed = ref.HashToField(ref.PackInsertion(p.StartIndex^1, p.Pre, p.Post, p.Ids))
 			proof, err = s.ps.ProveInsertion(conv.ToRepoIns(p))
 		} else {
-			c := sysutil.ValidDel(r, s.d, s.b)
+			c := sysutil.ValidDelK(r, s.d, s.b, j.k)
 			p := sysutil.DelParams(c)
 			hash, desc = p.InputHash, c.Describe()
 			perturbed = ref.HashToField(ref.PackDeletion(p.Indices, new(big.Int).Xor(p.Pre, big.NewInt(1)), p.Post))
